@@ -14,7 +14,7 @@ CHECKS = {
             'DESIGN.md section 5 C01'),
     'C02': ('name-template language intersection (product automaton); polynomial bound domination of every objective/auxiliary variable over valid matchings; closed classification of the constraint families; table agreement; load-balancing agreement over ordered criterion pairs; exception-source scan of the specialised effect trees',
             'Static argument that the LP\'s feasible set projected on x equals the valid (and, with -stab, stable) matchings and stays non-empty after every freeze: before the first solve the problem holds exactly the reference families; every objective/auxiliary variable has bounds that dominate the range of its defining expression (derived symbolically from the declared bounds, the student-row family and axioms A1/A2, e.g. n*R*a <= n*P*a); all variable and constraint name templates are pairwise disjoint and injective; criteria that read the load-deviation variables always find them declared and defined; scalar flags never have their (None) extras touched; one solve without criteria and non-empty per-rank ranges for admissible cut-offs. Sound for PASS; a FAIL means "not derivable" and each FAIL on the pinned tree was confirmed with a failing input (D1-D5, now fixed).',
-            'Trusted: ast; A1 (well-formed instance), A2 (non-negative integer multipliers, cut-offs within 1..max rank), A3, A6. CBC process failures and numeric effects are not decided.',
+            'Trusted: ast; A1 (well-formed instance), A2 (non-negative integer multipliers, positive integer cut-offs; a cut-off beyond the last rank must still leave the model solved: R6), A3, A6. CBC process failures and numeric effects are not decided.',
             'DESIGN.md section 5 C02'),
     'C03': ('per-criterion objective schema in linear normal form vs the documented criterion table, for every arity (defaults); closed-form rank ranges (max/min-normalised); sense x sign; deviation definition; rank-list scatter schema; closed classification of the feasible region',
             'Static: for each of the nine criteria and each number of optional arguments the constraint linking the objective variable is extracted in closed form and shown equal to the documented measured quantity (with the documented defaults substituted), its direction follows from the problem sense and the sign handed to the solve, generous/greedy rank loops cover exactly R..max(1,k) descending / 1..min(k,R) ascending, rank_lists[r-1] holds the pairs of rank r, the load deviation is defined two-sidedly, and the region optimised over is exactly the requested one. Decides the model handed to CBC, not CBC.',
